@@ -38,7 +38,7 @@ def dim_classes(I, names):
 
 def jobs(tier, seed, report):
     report.bounds = {'magnitude': 'unbounded rational (SMT Real)', 'powers': '-3..3 without 0, symbolic', 'prefixes': 'all 21 SI prefix exponents, symbolic (forked over the feasible prefix*power values)',
-                     'shapes': 'every unit to/from its base-SI expansion; all ordered pairs inside each dimension class (1 entry each); products/quotients: 2 and 3 entries per side over the 14-unit basis (quick: seeded sample), thorough: 4 entries'}
+                     'shapes': 'the same 2-3-unit product on both sides with an independent symbolic prefix on every entry; every unit to/from its base-SI expansion; all ordered pairs inside each dimension class (1 entry each); products/quotients: 2 and 3 entries per side over the 14-unit basis (quick: seeded sample), thorough: 4 entries'}
     report.outside = ['more than 4 factors per side', 'offset scales (C09)', 'that the declared scales are the standard ones (C05)']
     report.assumptions = ['BigRational exact (SMT Real)', 'BTreeMap association-list model with the crate\'s own Ord']
     report.models_used = ['num', 'coll', 'core']
@@ -64,6 +64,10 @@ def jobs(tier, seed, report):
         k = rnd.choice([2, 2, 3] if tier == 'quick' else [2, 3, 3, 4])
         shapes.append(rnd.sample(B, k))
     for i in range(0, len(shapes), 4): js.append({'name': f'prod-{i}', 'kind': 'product', 'shapes': shapes[i:i + 4]})
+    # the same product on both sides with a different prefix on EVERY entry of source and target
+    rep = []
+    for _ in range(18 if tier == 'quick' else 200): rep.append(rnd.sample(B, 2 if tier == 'quick' else rnd.choice([2, 2, 3])))
+    for i in range(0, len(rep), 3): js.append({'name': f'reprefix-{i}', 'kind': 'reprefix', 'shapes': rep[i:i + 3]})
     chains = []
     for d, ns in dim_classes(I, voc).items():
         if len(ns) >= 3:
@@ -89,6 +93,8 @@ def run_job(job, res, prefixes, budget, deadline):
             units = [ul.resolve(I, n) for n in sh]
             # convert the product of the units (symbolic powers/prefixes) into its own base expansion and back
             convert_job(I, res, units, None, 'product', deadline, pfx=[0, 3], product=True)
+    elif k == 'reprefix':
+        for sh in job['shapes']: convert_job(I, res, [ul.resolve(I, n) for n in sh], None, 'product', deadline, pfx=[0, 3], reprefix=True)
     elif k == 'chain':
         for ch in job['chains']: chain_job(I, res, ch, deadline)
 
@@ -98,7 +104,7 @@ def run_factor(I, tgt, src, x):
     r = I.run_body(FACTOR, [VRef(Cell(rt.compound(I, tgt)), []), VRef(Cell(rt.compound(I, src)), []), VRef(cell, [])])
     return r, cell.val
 
-def convert_job(I, res, src_units, tgt_units, tag, deadline, src_fixed=None, tgt_fixed=None, pfx=None, sweep=None, product=False):
+def convert_job(I, res, src_units, tgt_units, tag, deadline, src_fixed=None, tgt_fixed=None, pfx=None, sweep=None, product=False, reprefix=False):
     PREFIX_VALUES = pfx or FEW_PREFIXES
     def entry(I):
         x = z3.Real('x')
@@ -107,7 +113,11 @@ def convert_job(I, res, src_units, tgt_units, tag, deadline, src_fixed=None, tgt
             src = ul.sym_entries(I, src_units[:1], 's', -2, 2, prefixes=PREFIX_VALUES) + [(u, p, 0) for u, p, _ in ul.sym_entries(I, src_units[1:], 'r', -2, 2)]
         else:
             src = src_fixed or ul.sym_entries(I, src_units, 's', prefixes=PREFIX_VALUES if sweep != 'tgt' else [0, 3])
-        if tgt_units is None:
+        if reprefix:
+            src = ul.sym_entries(I, src_units, 's', -1, 2, prefixes=PREFIX_VALUES)
+            tgt = [(u, p, z3.Int(f'tf{i}')) for i, (u, p, _) in enumerate(src)]
+            for _, _, f in tgt: I.assume(z3.Or([f == v for v in PREFIX_VALUES]))
+        elif tgt_units is None:
             # target = base-SI expansion of the source with its symbolic powers: only possible when powers are concrete
             src = [(u, I.concretize(p, what='power'), f) for u, p, f in src]
             d = U.dims_of_compound([(u, p, 0) for u, p, _ in src])
